@@ -116,6 +116,28 @@ def impl_option_line(v, extra=()):
     return "!" + repr(obs)[:80]
 
 
+def real_option_block(content):
+    """the text that the real _parse_directive_options hands to the option tokenizer (None if it does not)"""
+    from docutils.parsers.rst.directives.images import Image
+    from myst_parser.parsers import directives as D
+    seen = []
+    orig = D.options_to_items
+
+    def spy(text, *a, **kw):
+        seen.append(text)
+        return orig(text, *a, **kw)
+
+    D.options_to_items = spy
+    try:
+        try:
+            D._parse_directive_options(content, Image, as_yaml=False, line=0)
+        except Exception:  # noqa: BLE001
+            pass
+    finally:
+        D.options_to_items = orig
+    return seen[0] if seen else None
+
+
 def dec_h2n(o):
     if o.startswith(("R|", "W|")):
         return o[:2] + dec_str(o[2:])
@@ -289,6 +311,12 @@ def corr(ctx):
         extra = [(k, rand_value(rng) if rng.random() < 0.9 else None)
                  for k in rng.sample(["class", "name", "width", "height", "align"], rng.choice([0, 1, 2]))]
         content = impl_option_line(rand_value(rng) if rng.random() < 0.95 else None, extra)
+        if rng.random() < 0.25:      # the (right-stripped) option block of an admonition
+            obs, _ = call_html_to_nodes("<div" + "".join(" " + attr_html(k, v) for k, v in
+                                                          [("class", "admonition " + (rand_value(rng) or "")), ("name", rand_value(rng) if rng.random() < 0.7 else "")])
+                                        + ">\nx\n</div>", False, True, False, record=False)
+            if isinstance(obs, tuple) and obs[1]:
+                content = obs[1][0][2].split("\n\n")[0]
         block = "\n".join(ln[1:] for ln in content.split("\n"))
         if rng.random() < 0.35 and block:
             k = rng.randrange(len(block))
@@ -343,6 +371,24 @@ def corr(ctx):
                 ctx.disagree("html_to_nodes", case, repr(impl)[:1500], repr(model)[:1500])
     if cases:
         ctx.sample({"html_block": cases[1][0]})
+    # (d) the strip-':' step: option block handed to the tokenizer by the real _parse_directive_options
+    contents = []
+    for (case, impl, label) in cases:
+        if isinstance(impl, tuple):
+            contents += [c for (_, _, c) in impl[1] if c]
+    contents = list(dict.fromkeys(contents))[: ctx.budget(3000, 20000, 20000)]
+    for c in list(contents[:600]):
+        k = rng.randrange(len(c))
+        contents.append(c[:k] + rng.choice(["\n", "\r", "\r\n", " ", ":", "x", "\x0c", "\x85"]) + c[k:])
+    outs = model_run_parallel(PID, ["extract\t" + enc_str(c) for c in contents])
+    for c, o in zip(contents, outs):
+        ctx.corr_cases += 1
+        impl = real_option_block(c)
+        model = None if o == "~" else dec_str(o.split("|")[0])
+        ctx.count("extract:" + ("block" if model is not None else "none"))
+        if impl != model and not c.startswith("---"):
+            if len(ctx.disagreements) < 40:
+                ctx.disagree("option block extraction", {"kind": "extract", "content": c}, repr(impl), repr(model))
 
 
 # ------------------------------------------------------------------ direct property oracle on the implementation
